@@ -64,7 +64,13 @@ def replay(args, outdir):
 
             phases = [(a['a0'], a['b0']), (a['a1'], a['b1'])] + ([(a['a2'], a['b2'])] if 'a2' in a else [])
             qs = (a['q0'], a['q1'])
+            if a.get('early_query'):
+                for qi in qs:
+                    if fc.findFeaturesAt('chr1', POOL[qi]) != []:
+                        clause = 'nonempty_answer_on_empty_container'
             for i, (x0, y0) in enumerate(phases):
+                if a.get('other_first'):
+                    fc.addFeature('chr2', 1, 2, 'g%d' % i, strand='+', data=None)
                 add(i, x0, y0)
                 if a['explicit_sort']:
                     fc.sort()
